@@ -252,6 +252,16 @@ def eval_expr(d, n, env, facts, depth):
         for f, vals in combos:
             out += eval_fn(d, fn, vals, f, depth + 1)
         return out
+    if k in ("CXXTemporaryObjectExpr", "CXXConstructExpr", "CXXScalarValueInitExpr", "InitListExpr") and not [c for c in inner if c.get("kind") != "CXXDefaultArgExpr"]:
+        # a tag object (`std::true_type{}`, `typename same_signedness<T, U>::type()`): it selects an overload, which clang has resolved; it carries no value
+        return [(facts, ("tag",))]
+    if k in ("CXXConstructExpr",) and len(inner) == 1:
+        # copy / move of a tag passed by value
+        sub = eval_expr(d, inner[0], env, facts, depth)
+        if all(v == ("tag",) for _, v in sub):
+            return sub
+    if k == "CXXMemberCallExpr" or (k == "CallExpr" and False):
+        pass
     raise Inconclusive("expression kind %s" % k)
 
 
